@@ -522,3 +522,277 @@ Proof.
   destruct (det_idx D (ix ++ iz)), (det_idx D (iy ++ iz)), (det_idx D iz), (det_idx D (iy ++ ix ++ iz)); try reflexivity.
   unfold ratio_of. f_equal. apply Qred_complete. unfold Qdiv. ring.
 Qed.
+
+(* ------------------------------------------------------------------------------------------------ *)
+(* residual vectors: inner products, projections, Cauchy-Schwarz                                      *)
+(* ------------------------------------------------------------------------------------------------ *)
+Lemma dot_cons x a y b : dot (x :: a) (y :: b) == x * y + dot a b.
+Proof. cbn [dot]. apply Qred_correct. Qed.
+Lemma dot_nil_r a : dot a [] = 0.
+Proof. destruct a; reflexivity. Qed.
+
+Lemma dot_sym a : forall b, dot a b = dot b a.
+Proof.
+  induction a as [|x a IH]; intros [|y b]; try reflexivity.
+  cbn [dot]. rewrite (IH b). apply Qred_complete. ring.
+Qed.
+
+Lemma sq_nonneg (x : Q) : 0 <= x * x.
+Proof. destruct (Qlt_le_dec x 0); nra. Qed.
+
+Lemma dot_nonneg a : 0 <= dot a a.
+Proof.
+  induction a as [|x a IH]; [cbn; lra|]. rewrite dot_cons. pose proof (sq_nonneg x). lra.
+Qed.
+
+Lemma dot_self_zero a : dot a a == 0 -> Forall (fun x => x == 0) a.
+Proof.
+  induction a as [|x a IH]; intros H; [constructor|]. rewrite dot_cons in H.
+  pose proof (sq_nonneg x). pose proof (dot_nonneg a).
+  assert (Hx : x * x == 0) by lra. assert (Ha : dot a a == 0) by lra.
+  constructor; [|apply IH, Ha]. apply Qmult_integral in Hx. tauto.
+Qed.
+
+Lemma dot_zero_r a : forall b, Forall (fun x => x == 0) b -> dot a b == 0.
+Proof.
+  induction a as [|x a IH]; intros b Hb; [reflexivity|]. destruct b as [|y b]; [reflexivity|].
+  inversion Hb as [|? ? Hy Hb']; subst. rewrite dot_cons, (IH b Hb'), Hy. ring.
+Qed.
+
+Definition comb (c : Q) (v b : list Q) : list Q := map2 (fun x y => Qred (x - c * y)) v b.
+
+Lemma comb_length c : forall v b, length v = length b -> length (comb c v b) = length v.
+Proof. unfold comb. induction v as [|x v IH]; intros [|y b] L; cbn [map2 length] in *; try lia. now rewrite (IH b) by lia. Qed.
+
+(* <u, v - c b> = <u,v> - c <u,b> *)
+Lemma dot_comb_r c : forall u v b, length u = length v -> length v = length b ->
+  dot u (comb c v b) == dot u v - c * dot u b.
+Proof.
+  induction u as [|z u IH]; intros [|x v] [|y b] L1 L2; cbn [length] in *; try lia.
+  - cbn. ring.
+  - unfold comb. cbn [map2]. fold (comb c v b). rewrite !dot_cons, (IH v b) by lia. rewrite Qred_correct. ring.
+Qed.
+Lemma dot_comb_l c u v b : length u = length v -> length v = length b ->
+  dot (comb c v b) u == dot v u - c * dot b u.
+Proof. intros L1 L2. rewrite (dot_sym (comb c v b) u), (dot_sym v u), (dot_sym b u). apply dot_comb_r; assumption. Qed.
+
+(* |v - c b|^2 = |v|^2 - 2 c <v,b> + c^2 |b|^2 *)
+Lemma dot_comb_self c v b : length v = length b ->
+  dot (comb c v b) (comb c v b) == dot v v - 2 * c * dot v b + c * c * dot b b.
+Proof.
+  intros L. rewrite dot_comb_l by (rewrite ?comb_length; auto). rewrite !dot_comb_r by auto.
+  rewrite (dot_sym b v). ring.
+Qed.
+
+Lemma proj_out_comb b v : proj_out b v = comb (Qred (dot v b / dot b b)) v b.
+Proof. reflexivity. Qed.
+
+(* the projection residual is orthogonal to the direction projected out (also when that direction is 0) *)
+Lemma proj_out_orth b v : length v = length b -> dot (proj_out b v) b == 0.
+Proof.
+  intros L. rewrite proj_out_comb, dot_comb_l, Qred_correct by auto.
+  destruct (Qeq_dec (dot b b) 0) as [E|E].
+  - rewrite (dot_zero_r v b (dot_self_zero b E)), E. unfold Qdiv. ring.
+  - field. exact E.
+Qed.
+
+(* each projection can only shrink the squared norm *)
+Lemma proj_out_norm b v : length v = length b ->
+  dot (proj_out b v) (proj_out b v) == dot v v - dot v b * dot v b / dot b b.
+Proof.
+  intros L. rewrite proj_out_comb, dot_comb_self, Qred_correct by auto.
+  destruct (Qeq_dec (dot b b) 0) as [E|E].
+  - rewrite (dot_zero_r v b (dot_self_zero b E)), E. unfold Qdiv. ring.
+  - field. exact E.
+Qed.
+
+Lemma div_nonneg (a b : Q) : 0 <= a -> 0 <= b -> 0 <= a / b.
+Proof.
+  intros Ha Hb. destruct (Qeq_dec b 0) as [E|E].
+  - rewrite E. unfold Qdiv, Qinv. cbn. rewrite Qmult_0_r. lra.
+  - apply Qle_shift_div_l; [|lra]. destruct (Qle_lt_or_eq _ _ Hb) as [?|E']; [assumption|]. symmetry in E'. contradiction.
+Qed.
+
+Lemma proj_out_shrinks b v : length v = length b -> dot (proj_out b v) (proj_out b v) <= dot v v.
+Proof.
+  intros L. rewrite proj_out_norm by auto.
+  pose proof (div_nonneg _ _ (sq_nonneg (dot v b)) (dot_nonneg b)). lra.
+Qed.
+
+Theorem cauchy_schwarz a b : length a = length b -> dot a b * dot a b <= dot a a * dot b b.
+Proof.
+  intros L. destruct (Qeq_dec (dot b b) 0) as [E|E].
+  - rewrite (dot_zero_r a b (dot_self_zero b E)), E. lra.
+  - pose proof (dot_nonneg (proj_out b a)) as H. rewrite proj_out_norm in H by auto.
+    pose proof (dot_nonneg b) as Hb. assert (Hb' : 0 < dot b b) by (destruct (Qle_lt_or_eq _ _ Hb) as [?|E']; [assumption|symmetry in E'; contradiction]).
+    assert (H2 : dot a b * dot a b / dot b b <= dot a a) by lra.
+    apply (Qmult_le_compat_r _ _ (dot b b)) in H2; [|lra].
+    setoid_replace (dot a b * dot a b / dot b b * dot b b) with (dot a b * dot a b) in H2 by (field; exact E). exact H2.
+Qed.
+
+(* ---- lengths: every vector the residual form manipulates has one entry per sample ---------------- *)
+Lemma proj_out_length b v : length v = length b -> length (proj_out b v) = length v.
+Proof. intros L. rewrite proj_out_comb. apply comb_length, L. Qed.
+
+Lemma resid_length n : forall B v, Forall (fun b => length b = n) B -> length v = n -> length (resid B v) = n.
+Proof.
+  unfold resid. induction B as [|b B IH]; intros v HB Lv; cbn [fold_left]; [exact Lv|].
+  inversion HB; subst. apply IH; [assumption|]. rewrite proj_out_length; congruence.
+Qed.
+
+Lemma gs_acc_length n : forall cols acc, Forall (fun b => length b = n) acc -> Forall (fun b => length b = n) cols ->
+  Forall (fun b => length b = n) (gs_acc acc cols).
+Proof.
+  induction cols as [|c cols IH]; intros acc Ha Hc; cbn [gs_acc]; [exact Ha|].
+  inversion Hc; subst. apply IH; [|assumption]. apply Forall_app. split; [exact Ha|].
+  constructor; [|constructor]. apply resid_length; auto.
+Qed.
+
+Lemma col_length D i : length (col D i) = length D.
+Proof. apply map_length. Qed.
+
+Lemma zbasis_length D iz : Forall (fun b => length b = length D) (zbasis D iz).
+Proof.
+  unfold zbasis. apply gs_acc_length; [constructor|]. constructor; [apply map_length|].
+  apply Forall_forall. intros c Hc. apply in_map_iff in Hc. destruct Hc as [i [<- _]]. apply col_length.
+Qed.
+
+Lemma residual_length D iz i : length (resid (zbasis D iz) (col D i)) = length D.
+Proof. apply resid_length; [apply zbasis_length|apply col_length]. Qed.
+
+(* ------------------------------------------------------------------------------------------------ *)
+(* (a), (e) scalar X and Y, any conditioning set: partial correlation form and non-negativity          *)
+(* ------------------------------------------------------------------------------------------------ *)
+Lemma ratio_res_scalar_unfold D i j iz :
+  let rx := resid (zbasis D iz) (col D i) in let ry := resid (zbasis D iz) (col D j) in
+  ratio_res D [i] [j] iz =
+  ratio_of (det_piv [[dot rx rx]]) (det_piv [[dot ry ry]]) (Some 1) (det_piv [[dot rx rx; dot rx ry]; [dot ry rx; dot ry ry]]).
+Proof. reflexivity. Qed.
+
+Theorem ratio_res_scalar D i j iz q : ratio_res D [i] [j] iz = Some q ->
+  let rx := resid (zbasis D iz) (col D i) in let ry := resid (zbasis D iz) (col D j) in
+  q * (dot rx rx * dot ry ry - dot rx ry * dot rx ry) == dot rx rx * dot ry ry /\ 1 <= q.
+Proof.
+  intros H rx ry. rewrite ratio_res_scalar_unfold in H. fold rx ry in H.
+  rewrite !det_piv_1, det_piv_2, (dot_sym ry rx) in H.
+  set (xx := dot rx rx) in *. set (yy := dot ry ry) in *. set (xy := dot rx ry) in *.
+  destruct (Qeq_bool xx 0) eqn:Ex; [discriminate|]. destruct (Qeq_bool yy 0) eqn:Ey; [discriminate|].
+  destruct (Qeq_bool (Qred (yy - xy * xy / xx)) 0) eqn:Ee; [discriminate|].
+  unfold ratio_of in H.
+  match type of H with Some ?t = _ => assert (Hq : q = t) by congruence end. clear H.
+  assert (Hx : ~ xx == 0) by (intros C; apply Qeq_bool_iff in C; congruence).
+  assert (He : ~ yy - xy * xy / xx == 0) by (intros C; rewrite <- Qred_correct in C; apply Qeq_bool_iff in C; congruence).
+  assert (Hd : ~ yy * xx - xy * xy == 0).
+  { intros C. apply He. setoid_replace (yy - xy * xy / xx) with ((yy * xx - xy * xy) / xx) by (field; exact Hx).
+    rewrite C. field. exact Hx. }
+  assert (Hqv : q == xx * yy / (xx * yy - xy * xy)).
+  { subst q. rewrite !Qred_correct, !qprod_cons, Qred_correct. cbn [qprod]. field. repeat split; try assumption; intros C; apply Hd; rewrite <- C; ring. }
+  split.
+  - rewrite Hqv. field. intros C. apply Hd. rewrite <- C. ring.
+  - assert (L : length rx = length ry) by (unfold rx, ry; rewrite !residual_length; reflexivity).
+    pose proof (cauchy_schwarz rx ry L) as CS. fold xx yy xy in CS.
+    pose proof (dot_nonneg rx) as Px. pose proof (dot_nonneg ry) as Py. fold xx in Px. fold yy in Py.
+    pose proof (sq_nonneg xy) as Pxy.
+    assert (Hpos : 0 < xx * yy - xy * xy).
+    { assert (0 <= xx * yy - xy * xy) by lra. destruct (Qle_lt_or_eq _ _ H) as [?|E]; [assumption|].
+      exfalso. apply Hd. setoid_replace (yy * xx - xy * xy) with (xx * yy - xy * xy) by ring. symmetry. exact E. }
+    rewrite Hqv. apply Qle_shift_div_l; [exact Hpos|]. lra.
+Qed.
+
+(* ------------------------------------------------------------------------------------------------ *)
+(* the residual vectors satisfy the normal equations of the regression on (1, Z)                      *)
+(* ------------------------------------------------------------------------------------------------ *)
+Definition orth_family (B : list (list Q)) : Prop := ForallOrdPairs (fun a b => dot a b == 0) B.
+
+(* projecting out directions orthogonal to u does not change the inner product with u *)
+Lemma dot_resid_keep n u : length u = n -> forall B v, Forall (fun b => length b = n) B -> length v = n ->
+  Forall (fun b => dot b u == 0) B -> dot (resid B v) u == dot v u.
+Proof.
+  intros Lu. unfold resid. induction B as [|b B IH]; intros v HB Lv HO; cbn [fold_left]; [reflexivity|].
+  inversion HB; inversion HO; subst.
+  rewrite IH by (try assumption; rewrite proj_out_length; congruence).
+  rewrite proj_out_comb, dot_comb_l by congruence. match goal with E : dot b u == 0 |- _ => rewrite E end. ring.
+Qed.
+
+Lemma resid_orth n : forall B v, Forall (fun b => length b = n) B -> length v = n -> orth_family B ->
+  Forall (fun b => dot (resid B v) b == 0) B.
+Proof.
+  induction B as [|b B IH]; intros v HB Lv HO; [constructor|].
+  inversion HB as [|? ? Lb HB']; subst. inversion HO as [|? ? Hb HO']; subst.
+  assert (Lp : length (proj_out b v) = length v) by (rewrite proj_out_length; congruence).
+  constructor.
+  - change (resid (b :: B) v) with (resid B (proj_out b v)).
+    rewrite (dot_resid_keep (length v) b Lb B (proj_out b v) HB' Lp).
+    + apply proj_out_orth. congruence.
+    + apply Forall_forall. intros b' Hb'. rewrite (dot_sym b' b). rewrite Forall_forall in Hb. apply Hb, Hb'.
+  - change (resid (b :: B) v) with (resid B (proj_out b v)). apply IH; assumption.
+Qed.
+
+Lemma orth_family_snoc B r : orth_family B -> Forall (fun b => dot r b == 0) B -> orth_family (B ++ [r]).
+Proof.
+  induction 1 as [|b B Hb HB IH]; intros Hr; cbn [app].
+  - constructor; constructor.
+  - inversion Hr; subst. constructor; [|apply IH; assumption].
+    apply Forall_app. split; [exact Hb|]. constructor; [|constructor]. rewrite (dot_sym b r). assumption.
+Qed.
+
+Lemma gs_acc_orth n : forall cols acc, Forall (fun b => length b = n) acc -> Forall (fun b => length b = n) cols ->
+  orth_family acc -> orth_family (gs_acc acc cols).
+Proof.
+  induction cols as [|c cols IH]; intros acc Ha Hc HO; cbn [gs_acc]; [exact HO|].
+  inversion Hc as [|? ? Lc Hc']; subst. apply IH; [|assumption|].
+  - apply Forall_app. split; [exact Ha|]. constructor; [|constructor]. apply resid_length; auto.
+  - apply orth_family_snoc; [exact HO|]. apply (resid_orth (length c)); auto.
+Qed.
+
+Lemma gs_acc_incl : forall cols acc b, In b acc -> In b (gs_acc acc cols).
+Proof.
+  induction cols as [|c cols IH]; intros acc b Hb; cbn [gs_acc]; [exact Hb|]. apply IH, in_or_app. tauto.
+Qed.
+
+(* a vector orthogonal to the Gram-Schmidt family is orthogonal to every column the family was built from *)
+Lemma gs_acc_orth_cols n u : length u = n -> forall cols acc, Forall (fun b => length b = n) acc ->
+  Forall (fun b => length b = n) cols -> Forall (fun b => dot b u == 0) (gs_acc acc cols) ->
+  Forall (fun c => dot c u == 0) cols.
+Proof.
+  intros Lu. induction cols as [|c cols IH]; intros acc Ha Hc HO; [constructor|]. cbn [gs_acc] in HO.
+  inversion Hc as [|? ? Lc Hc']; subst.
+  assert (Ha' : Forall (fun b => length b = length u) (acc ++ [resid acc c])).
+  { apply Forall_app. split; [exact Ha|]. constructor; [|constructor]. apply resid_length; auto. }
+  constructor; [|apply (IH _ Ha' Hc' HO)].
+  rewrite Forall_forall in HO.
+  rewrite <- (dot_resid_keep (length u) u eq_refl acc c Ha Lc).
+  - apply HO, gs_acc_incl, in_or_app. right. left. reflexivity.
+  - apply Forall_forall. intros b Hb. apply HO, gs_acc_incl, in_or_app. left. exact Hb.
+Qed.
+
+Lemma zbasis_orth D iz : orth_family (zbasis D iz).
+Proof.
+  unfold zbasis. apply (gs_acc_orth (length D)); [constructor| |constructor].
+  constructor; [apply map_length|]. apply Forall_forall. intros c Hc. apply in_map_iff in Hc.
+  destruct Hc as [i [<- _]]. apply col_length.
+Qed.
+
+(* normal equations: the residual of column i is orthogonal to the constant vector and to every Z column *)
+Theorem residual_normal_equations D iz i : let r := resid (zbasis D iz) (col D i) in
+  dot (ones D) r == 0 /\ Forall (fun k => dot (col D k) r == 0) iz.
+Proof.
+  intros r.
+  assert (Lr : length r = length D) by apply residual_length.
+  assert (HO : Forall (fun b => dot b r == 0) (zbasis D iz)).
+  { pose proof (resid_orth (length D) (zbasis D iz) (col D i) (zbasis_length D iz) (col_length D i) (zbasis_orth D iz)) as H.
+    apply Forall_forall. intros b Hb. rewrite Forall_forall in H. rewrite (dot_sym b r). apply H, Hb. }
+  assert (HC : Forall (fun c => dot c r == 0) (ones D :: map (col D) iz)).
+  { apply (gs_acc_orth_cols (length D) r Lr _ []); [constructor| |exact HO].
+    constructor; [apply map_length|]. apply Forall_forall. intros c Hc. apply in_map_iff in Hc.
+    destruct Hc as [k [<- _]]. apply col_length. }
+  inversion HC as [|? ? H1 H2]; subst. split; [exact H1|].
+  apply Forall_forall. intros k Hk. rewrite Forall_forall in H2. apply H2, in_map, Hk.
+Qed.
+
+(* and it differs from the column only inside span(1, Z): same inner product with everything orthogonal to the basis *)
+Theorem residual_same_off_span D iz i u : length u = length D -> Forall (fun b => dot b u == 0) (zbasis D iz) ->
+  dot (resid (zbasis D iz) (col D i)) u == dot (col D i) u.
+Proof.
+  intros Lu HO. apply (dot_resid_keep (length D) u Lu); [apply zbasis_length|apply col_length|exact HO].
+Qed.
